@@ -125,6 +125,9 @@ func caseUtils(w *px.Writer, class string, ps []uint, q uint, mx uint, la uint, 
 		if s2 && !utils.IsSuitableConfig(ps, dp.v2, q, limit*2+1) {
 			w.Fail("C18 suitable not monotone in limit: %s ps=%s q=%d limit=%v", dp.name, px.List(ps), q, limit)
 		}
+		if s1 && !p1.IsSuitableConfig(ps, dp.v1, q, limit*2+1) {
+			w.Fail("C18 suitable (v1) not monotone in limit: %s ps=%s q=%d : suitable with limit %v, not suitable with limit %v", dp.name, px.List(ps), q, limit, limit*2+1)
+		}
 
 		if mx > 0 || class == "exhaustive" || class == "pick-boundary" {
 			mn2 := utils.PickUpMinNonFatalQuantity(ps, dp.v2, mx)
@@ -230,7 +233,8 @@ func familyC18(w *px.Writer, r *rand.Rand, thorough bool) {
 		nFam, nRandom = 1500, 6000
 	}
 
-	limits := [][2]uint{{0, 1}, {5, 1}, {25, 2}, {50, 1}, {100, 1}, {33, 4}}
+	// (a limit above 100 % is meaningful: a priority can get many times its reference share)
+	limits := [][2]uint{{0, 1}, {5, 1}, {25, 2}, {50, 1}, {100, 1}, {33, 4}, {201, 2}, {150, 1}, {1000, 1}, {100000, 1}}
 
 	for n := 0; n <= 6; n++ {
 		ps := make([]uint, n)
